@@ -7,6 +7,7 @@ REPS = {
     "smallint": ("smallint", [("(-7)", 1), ("0", 2), ("0", 2), ("5", 3), ("32767", 4)]),
     "int": ("int", [("(-2147483648)", 1), ("(-1)", 2), ("0", 3), ("0", 3), ("42", 4), ("2147483647", 5)]),
     "bigint": ("bigint", [("(-9223372036854775807)", 1), ("0", 2), ("3000000000", 3), ("3000000000", 3), ("9223372036854775807", 4)]),
+    # (-0.0 and 0.0 are one value)
     "double": ("double", [("(-1.5)", 1), ("0.0", 2), ("0.25", 3), ("0.25", 3), ("1000000.5", 4)]),
     "decimal": ("decimal(18,4)", [("(-2.5)", 1), ("0", 2), ("1.0", 3), ("1.00", 3), ("1.5", 4), ("10", 5)]),
     "bool": ("boolean", [("false", 1), ("false", 1), ("true", 2)]),
@@ -34,9 +35,16 @@ def check_c19(args):
             n = len(rows)
             half = max(1, n // 2)
             ins = lambda tab, part, off: f"insert into {tab} values " + ", ".join(f"({off + i + 1}, {lit})" for i, (lit, _) in enumerate(part))
+            extra = []
+            if ty == "double" and any(lit == "0.0" for lit, _ in rows):
+                # negative zero can only be computed (unary minus on a stored zero): the same value as 0.0
+                k0 = [i for i, (lit, _) in enumerate(rows) if lit == "0.0"][0] + 1
+                extra = [{"sql": f"insert into v select {n + 1}, -x from v where k = {k0}"}]
+                rows = rows + [("-0.0 (computed)", 2)]
             for eng in ("mem", "disk"):
                 steps = [{"sql": f"create table v(k int, x {sqlty})"},
-                         {"sql": ins("v", rows[:half], 0)}, {"sql": ins("v", rows[half:], half)},
+                         {"sql": ins("v", rows[:half], 0)}, {"sql": ins("v", [r for r in rows[half:] if not r[0].endswith("(computed)")], half)}] + extra + [
+
                          {"sql": "select k, x from v", "tag": "show"},
                          {"sql": "select a.k, b.k, a.x < b.x, a.x = b.x, a.x <= b.x from v as a cross join v as b", "tag": "cmp"},
                          {"sql": "select k from v order by x", "tag": "order"},
@@ -72,7 +80,8 @@ def check_c19(args):
             k = row[0][1]
             val = row[1]
             disp[k] = val
-        steps = list(run["steps"][:3]) + [{"sql": f"create table w(k int, x {sqlty})"}]
+        nset = next(i for i, st in enumerate(run["steps"]) if st.get("tag") == "show")
+        steps = list(run["steps"][:nset]) + [{"sql": f"create table w(k int, x {sqlty})"}]
         for k, val in sorted(disp.items()):
             if val[0] == "n":
                 continue
